@@ -255,6 +255,12 @@ class RecvProto(Suite):
                    "seed": rng.randrange(1 << 30)}
             if wide:
                 ref["chunk"] = [4096]
+            if not wide and rng.random() < 0.03 and not any(e["p"] == hx(b"zbig") for e in tree):
+                # payloads of (about) 1 MiB, the largest the statement mentions
+                tree.append({"p": hx(b"zbig"), "t": "file", "size": rng.choice([1048576, 2500000, 2097152]), "uid": 0, "gid": 0, "mt": gen.MTIMES[0], "mode": 0o644})
+                tree.sort(key=lambda e: gen.pathkey(bytes.fromhex(e["p"])))
+                dst = [e for e in dst if e["p"] != hx(b"zbig")]
+                ref["chunk"] = [rng.choice([1048576, 1048576 - 12, 1048576 - 64, 1048575])]
             if not wide and rng.random() < 0.06:
                 # dozens of ids in the middle of their content at the same time: every file takes several payloads, served round-robin
                 # (more files open at once than any cap on open descriptors / writers an implementation may have)
